@@ -185,6 +185,33 @@ def truncateTo (fs : Files) (file off hi : Nat) : Files :=
   let f := (fileAt kept file).getD []
   setFile kept file (some ((f ++ List.replicate (off - f.length) 0).take off))
 
+/-- the loop of `writePendingAndCommit` when every write to block file `n` fails (the harness
+    makes that file a link to `/dev/full`): `true` = a block was directed to file `n`,
+    `writeBlock` returned the I/O error -/
+def blocksUntil (crc : Bytes → Nat) (n : Nat) (s : Store) : List (Bytes × Bytes) → Store × Bool
+  | [] => (s, false)
+  | (h, d) :: rest =>
+    let fullLen := u32 (u32 d.length + 12)
+    let final := u32 (s.curOff + fullLen)
+    let target := if final < s.curOff ∨ final > s.max then u32 (s.curFile + 1) else s.curFile
+    if target = n then (s, true)
+    else
+      let (s', loc) := writeBlock crc s d
+      blocksUntil crc n { s' with index := (h, loc) :: s'.index } rest
+
+/-- `Tx.Commit` with a failing block file `n` (> the current file): on the error
+    `writePendingAndCommit` runs `handleRollback(old file, old offset)` — the newer files
+    (including the link) are deleted, the old file is opened or created and truncated back,
+    the cursor returns, nothing of the transaction stays; `true` = the commit failed -/
+def commitObstructed (crc : Bytes → Nat) (s : Store) (n : Nat) : Store × Bool :=
+  match s.pending with
+  | none => (s, false)
+  | some p =>
+    let s0 := { s with pending := none }
+    let (s', failed) := blocksUntil crc n s0 p
+    if failed then ({ s0 with files := truncateTo s'.files s.curFile s.curOff n }, true)
+    else ({ s' with writeLoc := (s'.curFile, s'.curOff) }, false)
+
 /-- close + `openDB` + `reconcileDB`: `none` = the database refuses to open (ErrCorruption). -/
 def reopen (s : Store) : Option Store :=
   let (sf, so) := scan s.files 0 (0, 0)
